@@ -109,7 +109,7 @@ UNITS = {
             r'^Sequences::next$': ['C06', 'C05'],
             r'^Sequences::seq_stats$': ['C06', 'C05', 'C14'],
             r'^lemma_total_len': ['C06', 'C05', 'C14'],
-            r'^verif_lift_gz_decoder$': ['C06'],
+            r'^verif_lift_gz_decoder$': ['C06', 'C05'],
         },
     },
     'seqformat_kani': {
@@ -205,7 +205,7 @@ PROPS = {
         'not_reached': [],
     },
     'C03': {
-        'units': ['posmaps', 'header', 'ctor'], 'deps': ['kmer_gen', 'n2k'], 'replay': 'c03,c13',
+        'units': ['posmaps', 'header', 'ctor'], 'deps': ['kmer_gen', 'n2k'], 'replay': 'c03,c12,c13',
         'level_text': 'Verus proves for the verbatim kmer_pos_maps and every k in 1..=15 that (pos_map, pos_kmer, count) is the order isomorphism between [0,count) '
                       'and the canonical k-mers (x <= revcomp(x)): canonical codes map to indices below count and back, the index->code map is strictly increasing '
                       '(hence index == rank in increasing code order), non-canonical entries are 0 and the map has no other key; and that the three header builders '
@@ -241,7 +241,7 @@ PROPS = {
         'not_reached': ['the glue between the lifted fragments (closure captures, `let header_len = header.len()`, the Mutex-guarded record hand-out)', 'unsafe pointer copy inside MMWriter::write_at; memmap2'],
     },
     'C11': {
-        'units': ['cgr', 'float_kani'], 'deps': [], 'replay': 'c11,c13',
+        'units': ['cgr', 'float_kani', 'batch_loops', 'cli_wiring'], 'deps': [], 'replay': 'c11,c13',
         'level_text': 'Verus proves for the verbatim cgr_maps (both copies) and vectorise_one (core and Python binding), for every byte string: the corner table is exactly '
                       '{A,a->(0,0); C,c->(0,S); G,g->(S,S); T,t,U,u->(S,0)} with no other key and the centre is (S/2,S/2); Ok(v) iff every byte is a nucleotide letter, then one point per base and '
                       'point i == midpoint(corner(base i), point i-1 or centre) (so it depends only on the first i bases); any other byte gives Err and no coordinates. Spec-level lemma: every '
@@ -319,7 +319,7 @@ PROPS = {
         'not_reached': ['worker interleavings and chunk boundaries', 'merge(): parsing chunk files, summing, deleting temporary files', 'init(): partition count from float arithmetic'],
     },
     'C15': {
-        'units': ['cli_wiring', 'ctor'], 'deps': [], 'replay': 'c15',
+        'units': ['cli_wiring', 'ctor'], 'deps': ['mmap_rows', 'batch_loops'], 'replay': 'c15',
         'level_text': 'Narrow claim. Verus proves for the lifted option-to-setter statements of the oligo, coverage, counter and minimiser arms of cli(), against stub computers whose setters record a ghost configuration: '
                       'csv/tsv/spc change only the delimiter (",", tab, space), the header flag only sets header, counts only flips normalisation, --acgt only sets the rendering flag, the thread option is applied iff > 0 and touches nothing else, '
                       'k / bins / memory / alt-input are passed through unchanged; and every value accepted by the clap value_parser ranges (read from the attribute text on every run) satisfies the preconditions of the library '
